@@ -99,9 +99,35 @@ func parseCuts(s string) map[int]bool {
 // genStreamFiles yields byte strings: valid grammar files (bytes come from the Lean grammar), their
 // truncations, and raw soups.
 func genStreamFile(r *Rng, m *Model) []byte {
-	switch r.Intn(6) {
+	switch r.Intn(7) {
 	case 0:
 		return genRawSMF(r)
+	case 1:
+		// a grammar file whose MThd chunk declares another length than 6 (SMF 1.0 allows a longer header):
+		// the extra bytes follow the six known ones, a shorter one cuts into them
+		c := genGram(r, "quick")
+		b := unhx(fields(m.Ask(c.Op))["bytes"])
+		if len(b) < 14 {
+			return b
+		}
+		l := r.Pick(0, 1, 5, 7, 8, 8, 9, 10, 12, 16, 33, 38, 40, 64, 100, 300)
+		out := append([]byte{}, b[:4]...)
+		out = append(out, byte(l>>24), byte(l>>16), byte(l>>8), byte(l))
+		if l <= 6 {
+			if r.Bool() {
+				out = append(out, b[8:8+l]...) // really shorter
+			} else {
+				out = append(out, b[8:14]...) // only declared shorter
+			}
+		} else {
+			out = append(out, b[8:14]...)
+			out = append(out, r.Bytes(l-6)...)
+		}
+		out = append(out, b[14:]...)
+		if r.Chance(1, 5) {
+			out = out[:r.Intn(len(out))]
+		}
+		return out
 	default:
 		c := genGram(r, "quick")
 		mf := fields(m.Ask(c.Op))
@@ -200,8 +226,9 @@ func runC09(c Case, m *Model) (v Verdict) {
 func judgeFrag(b []byte, cuts string, eofData bool, m *Model, v *Verdict) {
 	mem := readClass(b)
 	fr := &cutReader{data: b, cuts: parseCuts(cuts), eofWithData: eofData, fault: -1}
-	got := readClassFrom(fr)
+	got := readClassFrom(readerVariant(fr, len(b)+len(cuts)))
 	v.Counts["configurations"]++
+	v.Counts["reader:"+readerVariantNames[(len(b)+len(cuts))%5]]++
 	v.Counts["class:"+strings.SplitN(mem, ":", 2)[0]]++
 	ed := 0
 	if eofData {
